@@ -151,6 +151,20 @@ func ruleSchema(c *Ctx) *RuleResult {
 					what, typ := wireDescribe(e, reading)
 					items = append(items, wireItem{call.Pos(), i, what, shortType(typ), p.InstrPos(ins)})
 				}
+			default:
+				// a helper of the writer/reader that is handed a field of c (a hand-written
+				// encoder/decoder for that field): the field is on the wire at this point,
+				// with a layout this rule does not look into
+				if cal != nil && p.InModule(cal) && cal.Signature.Recv() != nil && cal != wk && cal != rk && cal != wS && cal != rS {
+					for _, a := range call.Call.Args[1:] {
+						if fld, _, ok := codeFieldOf(a); ok {
+							items = append(items, wireItem{call.Pos(), 0, "field:" + fld, "?", p.InstrPos(ins)})
+						} else if cv, ok := a.(*ssa.Convert); ok {
+							_ = cv
+						}
+					}
+				}
+				return
 			case wk, rk, wS, rS:
 				// an element loop: which field it walks / fills
 				field := "?"
@@ -224,6 +238,17 @@ func ruleSchema(c *Ctx) *RuleResult {
 		}
 		return w + " " + it.typ
 	}
+	sameItem := func(a, b string) bool {
+		if a == b {
+			return true
+		}
+		// a field handled by a helper has an unknown wire type: compare the field only
+		fa, fb := strings.Fields(a), strings.Fields(b)
+		if len(fa) == 2 && len(fb) == 2 && fa[0] == fb[0] && (fa[1] == "?" || fb[1] == "?") {
+			return true
+		}
+		return false
+	}
 	n := len(ws)
 	if len(rs) > n {
 		n = len(rs)
@@ -236,7 +261,7 @@ func ruleSchema(c *Ctx) *RuleResult {
 		if i < len(rs) {
 			b = render(rs[i], true)
 		}
-		if a == b {
+		if sameItem(a, b) {
 			r.ok(fmt.Sprintf("(a) item %d: %s", i, a))
 		} else {
 			pos := ""
